@@ -1,7 +1,7 @@
 #!/bin/sh
 # Runs the repository's pinned test suite (guard off) and reports pass/fail counts
 # against the 244 stable tests of /root/.vp/BASELINE.json.
-cd /repo || exit 2
+cd "${1:-/repo}" || exit 2
 export GOFLAGS=-mod=mod GOPROXY=off GOSUMDB=off
 OUT=$(mktemp)
 go test -mod=mod -json -vet=off -count=1 -timeout 25m ./... > "$OUT" 2>/dev/null
